@@ -44,6 +44,9 @@ type c14Case struct {
 	Opts     []kvh.Opt `json:"configs"`
 	Ops      []kvh.Op  `json:"ops"`
 	Bytes    bool      `json:"bytesMode"`
+	// SameShards: the three configurations use the three index types at one shard count, now and after every
+	// reopen; iterator sessions then also seek backwards
+	SameShards bool `json:"sameShards,omitempty"`
 }
 
 func TestC14(t *testing.T) {
@@ -183,6 +186,13 @@ func c14Run(t *rapid.T, st *kvh.Stats) {
 		}
 		c.Opts = append(c.Opts, o)
 	}
+	c.SameShards = kvh.Pct(t, 25, "sameshards")
+	if c.SameShards {
+		for i := range c.Opts {
+			c.Opts[i].Shards = base.Shards
+			c.Opts[i].Index = int8(1 + i)
+		}
+	}
 	first := append([]kvh.Opt(nil), c.Opts...)
 	x, f := newC14Exec(c)
 	if f != nil {
@@ -206,6 +216,14 @@ func c14Run(t *rapid.T, st *kvh.Stats) {
 				if c.Bytes && o.Opt != nil {
 					o.Opt.FileSize = base.FileSize
 				}
+				if c.SameShards && o.Opt != nil {
+					for i := range o.OptN {
+						o.OptN[i].Shards = o.Opt.Shards
+					}
+				}
+			}
+			if o.K == "iter" && o.Iter != nil && c.SameShards {
+				o.Iter.Backward = true
 			}
 			if f := x.step(o); f != nil {
 				report(t, st, c, f)
